@@ -130,8 +130,12 @@ def replay_counterexample(c, cex_json, module=None, timeout_s=60):
         nr = native.run_case(c, inputs, call=call, extra_ns=extra_ns)
         if nr.skipped:
             return {"status": "precondition-false-natively", "failures": []}
-        return {"status": "failed" if nr.failures else "passed", "failures": [list(f) for f in nr.failures],
-                "outcome": nr.outcome, "exception": repr(nr.exc)[:300] if nr.exc is not None else None}
+        out = {"status": "failed" if nr.failures else "passed", "failures": [list(f) for f in nr.failures],
+               "outcome": nr.outcome, "exception": repr(nr.exc)[:300] if nr.exc is not None else None}
+        if adapter is not None:
+            # the adapter searched the counterexample CLASS natively: record the concrete witness it found
+            out["native_inputs"] = {k: ({"__hex__": v.hex()} if isinstance(v, bytes) else repr(v)[:300]) for k, v in inputs.items()}
+        return out
     except CannotBuild as e:
         return {"status": "cannot-build", "failures": [], "note": str(e)}
     except _Timeout:
